@@ -103,9 +103,19 @@ def direct_split(args):
         V = (np.eye(n)[rng.permutation(n)[:k], :] * rng.choice([-1.0, 1.0], size=(k, 1))).astype(complex)
         tm = (U * s) @ V
         exact = all(np.array_equal(scipy.linalg.svd(tm, compute_uv=False, lapack_driver=drv), s) for drv in ("gesdd", "gesvd"))
+    scale = float(args.get("scale", 1.0)) if not args.get("exact") else 1.0
+    thr_eff = args["thr"] * (scale**2 if args["mode"] == "discarded_weight" else 1.0)
+    if scale != 1.0:
+        s = s * scale  # a block of tiny (or large) norm: the rules are stated relative to it, the threshold is scaled along
     theta_mat = (U * s) @ V
+    if args.get("nearly_real") and not args.get("exact"):
+        # a real block with an imaginary part of relative size 1e-9 (what a real state acquires in a very short time step)
+        Ur, _ = np.linalg.qr(rng.normal(size=(m, m)))
+        Vr, _ = np.linalg.qr(rng.normal(size=(n, n)))
+        theta_mat = (Ur[:, :k] * s) @ Vr[:k, :] + 1e-9j * (float(np.max(s)) or 1.0) * rng.normal(size=(m, n))
+        s = np.linalg.svd(theta_mat, compute_uv=False)[:k]
     theta = theta_mat.reshape(d0, D0, d1, D2).transpose(0, 2, 1, 3).reshape(d0 * d1, D0, D2)
-    p = ranksel.params(args["thr"], args["minb"], args["maxb"], args["mode"])
+    p = ranksel.params(thr_eff, args["minb"], args["maxb"], args["mode"])
     outs = {}
     for dist in ("left", "right", "sqrt"):
         try:
@@ -120,11 +130,15 @@ def direct_split(args):
         outs[dist] = (keep, prod, a, b)
     keep, prod, a, b = outs["right"]
     norm2 = float(np.sum(s**2)) or 1.0
-    tol = 1e-9 * norm2 + 1e-13
+    tol = 1e-9 * norm2 + (1e-13 if scale == 1.0 else 0.0)
     disc = float(np.sum(s[keep:] ** 2))
     err2 = float(np.linalg.norm(theta_mat - prod) ** 2)
     if abs(err2 - disc) > tol:
-        return f"|theta - A.B|^2 = {err2:.6e} but discarded weight is {disc:.6e}" + (" (fast SVD driver failing, fallback driver in use)" if args.get("gesdd_fails") else "")
+        return (f"|theta - A.B|^2 = {err2:.6e} but discarded weight is {disc:.6e}" + (" (fast SVD driver failing, fallback driver in use)" if args.get("gesdd_fails") else "")
+                + (f" (block of norm {np.sqrt(norm2):.1e})" if scale != 1.0 else ""))
+    if abs(np.sqrt(err2) - np.sqrt(disc)) > 1e-10 * np.sqrt(norm2) + (1e-13 if scale == 1.0 else 0.0):
+        return (f"|theta - A.B| = {np.sqrt(err2):.6e} but the discarded singular values have norm {np.sqrt(disc):.6e} (block norm {np.sqrt(norm2):.3e}"
+                + (", nearly real block" if args.get("nearly_real") else "") + ")")
     for dist in ("left", "sqrt"):
         if outs[dist][0] != keep or np.linalg.norm(outs[dist][1] - prod) > 1e-9 * np.sqrt(norm2) + 1e-12:
             return f"distribution {dist} gives a different product"
@@ -134,7 +148,7 @@ def direct_split(args):
     br = outs["left"][3].transpose(1, 0, 2).reshape(keep, n)
     if np.linalg.norm(br @ br.conj().T - np.eye(keep)) > 1e-9:
         return "svd_distribution='left': right factor is not an isometry"
-    minb, maxb, thr = args["minb"], args["maxb"], args["thr"]
+    minb, maxb, thr = args["minb"], args["maxb"], thr_eff
     if args["mode"] == "discarded_weight":
         capk = max(min(k, maxb), min(k, minb))
         if disc > thr * (1 + 1e-9) + 1e-15 * norm2 and keep != max(maxb, min(k, minb)) and keep < capk:
@@ -255,6 +269,12 @@ def search(ctx):
         if i % 6 == 1:  # the fast LAPACK driver fails to converge: the fallback path, on tall, square and wide complex matrices
             args["gesdd_fails"] = True
             ctx.count("direct_split_fallback_driver")
+        if i % 7 == 3:  # blocks of tiny or large norm (the centre block of a state whose norm has decayed), thresholds scaled along
+            args["scale"] = float(10.0 ** rng.choice([-10, -9, -6, 5]))
+            ctx.count("direct_split_scaled_blocks")
+        if i % 7 == 5:
+            args["nearly_real"] = True
+            ctx.count("direct_split_nearly_real_blocks")
         why = direct_split(args)
         cut = sum(1 for x in s if x > 0)
         ctx.case(nontrivial_key=("ds", i) if kind != "zero" else None,
